@@ -19,7 +19,7 @@ prop(
     rule="pintcfg.Gen: ci, parser, owners, repository, prometheus (refused port 127.0.0.1:1), discovery (filepath / prometheusQuery "
          "with templates), checks, check \"promql/series\" / \"promql/regexp\" and 0-3 rule{} blocks with match/ignore sub-blocks and "
          "1-4 of the twelve configurable checks, every option drawn valid / invalid (0-15% per value) / templated (raw substitution, "
-         "data-dependent failure, data-independent, unparsable), plus one structural defect in 4% of the files; perturbation modes: none / exactly one invalid value at a uniformly chosen value position / per-value rate; a quarter of the rule blocks get a \"focused\" match or ignore sub-block whose 2-9 filters are all derived from one rule of the rule file (so that rule passes every filter) with at most one filter - at any position - made invalid; x one rule file "
+         "data-dependent failure, data-independent, unparsable), plus one structural defect in 4% of the files; list-valued options (values, keep/strip, enabled/disabled, include/exclude, tags, failover, owners) get sizes from {0,1,2,3,8,9,16,40}, numeric options include 0, 1 and the maximum; a third of the configurations carry a rule/label or alerts/annotation check derived from a real label / annotation of a rule of the file, with a values list of boundary size and the rule's value on the list or off it sorting first / in the middle / last, optionally with a token; perturbation modes: none / exactly one invalid value at a uniformly chosen value position / per-value rate; a quarter of the rule blocks get a \"focused\" match or ignore sub-block whose 2-9 filters are all derived from one rule of the rule file (so that rule passes every filter) with at most one filter - at any position - made invalid; x one rule file "
          "(1-2 groups, 1-3 rules) whose names, label keys/values and annotations carry ( ) [ ] \\ {{ }} * +? | ^ $ UTF-8 ...; x command "
          "{lint, ci, watch} x entry state. Totality: config.Load errors, or discovery + GetChecksForEntry + every Check + sort/dedup + "
          "all four reporters complete without panic (in-process; online checks in-process only when no query workers are started, "
